@@ -49,6 +49,7 @@ class Cap:
         self.code = None
         self.codetext = None
         self.dump = []           # raw dump lines (DEF..END)
+        self.raw = []            # RAWDEF / RSTATE / REDGE lines (graph before the passes)
         self.nodump = True
         self.utf8 = True
         self.root = 0
@@ -190,6 +191,9 @@ def _parse_capture(stdout, n):
             cur.dump.append(ln)
         elif t[0] in ('HIR', 'SRC'):
             cur.dump.append(ln)
+        elif t[0] in ('RAWDEF', 'RSTATE', 'REDGE'):
+            # the graph before the passes of Graph::new; kept apart so that every other consumer sees the dump as before
+            cur.raw.append(ln)
         elif t[0] == 'STATE':
             cur.states.append(dict(early=int(t[2]), accept=int(t[3]), eoi=int(t[4]), edges=[]))
             cur.dump.append(ln)
